@@ -58,6 +58,7 @@ func c20(c *Ctx) {
 	c20FrameTrimmed(c)
 	c20ReportWhenQuiet(c)
 	c20FrameObjectsPerFrame(c)
+	c20StateAddOnlyFull(c)
 	checksumOddOctetHigh(c, "checksum-odd-octet-high", "A probe of odd length with a non-zero last octet (ping -s 57) fails verification and is dropped before its knock is queued.")
 }
 
